@@ -86,6 +86,11 @@ def run(ctx, chk):
     DR_.per_byte(chk, "C10", prog, eff, {"nedata", "nedata-wrap", "status", "action"}, by_byte=by_byte)
     nm = mirror(chk, "C10.mirror", "C10.simple", prog, eff, encs, by_byte, enumv, loader_ext)
     chk.floor("C10.mirror", "encoder byte -> decoder arm links", nm, 200)
+    chk.rule("C10.stateless", "the decoder is a function of its arguments: nothing reachable from cbor_stream_decode writes an object with static storage "
+             "(no memo of the previous call, no flag that survives it) - the answer for a buffer does not depend on what was decoded before "
+             "(transitive write sets from the effects engine; shared with C17.no-global-write)")
+    import rules as _rst
+    _rst.check_stateless(chk, "C10.stateless", prog, eff, ('cbor_stream_decode',))
     chk.exhaustive = True
 
 
